@@ -131,7 +131,13 @@ pub fn eval_from_bytes_bitcoin(bytes: &[u8], version_id: u8) -> EvaluatedScript 
     // For OP_RETURN and provably unspendable scripts there is no point in parsing the address
     if script.is_op_return() {
         // OP_RETURN 13 <data>
-        let data = String::from_utf8(script.to_bytes().into_iter().skip(2).collect());
+        // payload of a single data push (direct or PUSHDATA1/2/4); other shapes: everything after the first two bytes
+        let mut instructions = script.instructions().skip(1);
+        let payload: Vec<u8> = match (instructions.next(), instructions.next()) {
+            (Some(Ok(Instruction::PushBytes(push))), None) => push.as_bytes().to_vec(),
+            _ => script.to_bytes().into_iter().skip(2).collect(),
+        };
+        let data = String::from_utf8(payload);
         let pattern = ScriptPattern::OpReturn(data.unwrap_or_else(|_| String::from("")));
         return EvaluatedScript::new(None, pattern);
     } else if is_provable_unspendable(script) {
